@@ -58,13 +58,26 @@ func exact(res uint16, evs []tev, T int64) (*big.Rat, int) {
 	return t, segs
 }
 
-func buildFile(res uint16, evs []tev) ([]byte, error) {
+// style 0: the tempo track holds tempo events only; style 1: every tempo event
+// is preceded by another event that carries the tick gap, the tempo event
+// itself has delta 0; style 2: the gap is split between a filler and the tempo.
+func buildFile(res uint16, evs []tev, style int) ([]byte, error) {
 	s := smf.NewSMF1()
 	s.TimeFormat = smf.MetricTicks(res)
 	var t0, t1 smf.Track
 	t0.Add(0, smf.MetaText("tempo track"))
-	for _, e := range evs {
-		t0.Add(e.gap, smf.MetaUndefined(0x51, []byte{byte(e.us >> 16), byte(e.us >> 8), byte(e.us)}))
+	for i, e := range evs {
+		tm := smf.MetaUndefined(0x51, []byte{byte(e.us >> 16), byte(e.us >> 8), byte(e.us)})
+		switch style {
+		case 1:
+			t0.Add(e.gap, midi.ControlChange(0, uint8(i), 1))
+			t0.Add(0, tm)
+		case 2:
+			t0.Add(e.gap/2, smf.MetaMarker("m"))
+			t0.Add(e.gap-e.gap/2, tm)
+		default:
+			t0.Add(e.gap, tm)
+		}
 	}
 	t0.Close(3)
 	t1.Add(0, midi.NoteOn(0, 60, 100))
@@ -106,7 +119,16 @@ func feature(evs []tev) string {
 }
 
 func judgeMap(res uint16, evs []tev) {
-	data, err := buildFile(res, evs)
+	for style := 0; style < 3; style++ {
+		if style > 0 && len(evs) == 0 {
+			break
+		}
+		judgeMapStyle(res, evs, style)
+	}
+}
+
+func judgeMapStyle(res uint16, evs []tev, style int) {
+	data, err := buildFile(res, evs, style)
 	if err != nil {
 		ctx.Guard(false, "cannot build file: %v", err)
 		return
